@@ -295,7 +295,8 @@ def plan(tier):
         units.append(('scale', hunks))
     for ia in range(len(THREAD_OPS)):
         for ib in range(ia, len(THREAD_OPS)):
-            units.append(('threads', ia, ib))
+            if thread_pair_ok(THREAD_OPS[ia], THREAD_OPS[ib]):
+                units.append(('threads', ia, ib))
     return {
         'units': units,
         'rule': 'explicit-state BFS over a pool of %d live trees plus one '
@@ -346,6 +347,14 @@ class YieldDict(dict):
         _yield_point()
         return dict.items(self)
 
+    def __setitem__(self, k, v):
+        _yield_point()
+        return dict.__setitem__(self, k, v)
+
+    def get(self, k, d=None):
+        _yield_point()
+        return dict.get(self, k, d)
+
 
 class PointStream(io.BytesIO):
     def write(self, b):
@@ -375,7 +384,19 @@ def thread_world():
 
 
 THREAD_OPS = [('write-shared', 0), ('write-shared', 1), ('to-bytes', 0),
-              ('to-bytes', 1), ('parse', 0), ('parse', 1), ('parse', 3)]
+              ('to-bytes', 1), ('parse', 0), ('parse', 1), ('parse', 3),
+              ('stats', 0), ('stats', 1), ('add-file', 1)]
+MUTATORS = {'stats', 'add-file'}
+
+
+def thread_pair_ok(opa, opb):
+    """A mutator may only run beside operations on the OTHER tree (a
+    mutator racing an observer of the same tree is the caller's race)."""
+    for x, y in ((opa, opb), (opb, opa)):
+        if x[0] in MUTATORS and y[0] != 'parse' and y[1] == x[1]:
+            return False
+    return True
+
 
 
 def thread_body(w, op):
@@ -393,6 +414,14 @@ def thread_body(w, op):
             if name == 'parse':
                 t = w.reader.parse(PointReadStream(FILES[j]))
                 return fsnap(t)
+            if name == 'stats':
+                w.trees[j].generate_stats()
+                return fsnap(w.trees[j])
+            if name == 'add-file':
+                w.trees[j].changes[0].add_file(
+                    meta=YieldDict(path='new'), diff=SAMPLE_DIFF)
+                w.trees[j].generate_stats()
+                return fsnap(w.trees[j])
         finally:
             _CTL.pop(threading.get_ident(), None)
     return body
@@ -429,7 +458,9 @@ def run_thread_unit(unit, tier):
                           '%r gave a result that differs from running it '
                           'alone' % (op,)))
         for j in range(2):
-            if fsnap(w.trees[j]) != tree_snaps[j]:
+            muts = [op for op in (opa, opb) if op[0] in MUTATORS and
+                    op[1] == j]
+            if not muts and fsnap(w.trees[j]) != tree_snaps[j]:
                 v.append(('interleaved-observers-changed-tree',
                           'tree %d changed' % j))
         acc.evals += 1
@@ -476,7 +507,8 @@ def replay_threads(payload):
             out.append({'key': 'interleaved-op-result-differs:%s' % op[0],
                         'msg': repr(op)})
     for j in range(2):
-        if fsnap(w.trees[j]) != snaps[j]:
+        muts = [op for op in (opa, opb) if op[0] in MUTATORS and op[1] == j]
+        if not muts and fsnap(w.trees[j]) != snaps[j]:
             out.append({'key': 'interleaved-observers-changed-tree',
                         'msg': 'tree %d' % j})
     return out
